@@ -2,7 +2,7 @@ SPECIFICATION Spec
 CONSTANTS
   Sigma = {0, 1, 2, 63, 64, 192, 12, 97}
   MaxBody = 5
-  HopLimit = 10
+  HopLimit = 126
   Start = 12
 INVARIANTS Inv_C01_InBounds Inv_C01_NameFits
 PROPERTIES C01_Terminates
